@@ -47,8 +47,13 @@ Send == /\ Len(sent) < MaxRecords
 
 \* ---- adversary ------------------------------------------------------------------------------------
 CanManip == manip < MaxManip /\ rstate # "lost"
+\* (a bit flipped in the nonce field makes it another nonce - possibly the very one the receiver expects next - and the frame
+\* no longer authenticates; MaxRecords + 1 stands for "some number that is never expected")
 Flip(i, where) == /\ CanManip /\ i \in 1..Len(wire)
-                  /\ wire' = [wire EXCEPT ![i] = IF where = "len" THEN [@ EXCEPT !.len = "bad"] ELSE [@ EXCEPT !.auth = FALSE]]
+                  /\ \E n2 \in 0..(MaxRecords + 1) :
+                       /\ (where = "nonce") => n2 # wire[i].nonce
+                       /\ (where # "nonce") => n2 = wire[i].nonce
+                       /\ wire' = [wire EXCEPT ![i] = IF where = "len" THEN [@ EXCEPT !.len = "bad"] ELSE [@ EXCEPT !.auth = FALSE, !.nonce = n2]]
                   /\ manip' = manip + 1 /\ last' = <<"Flip", i, where>>
                   /\ UNCHANGED <<sent, sendNonce, nextNonce, delivered, queued, reads, failedReads, rstate, desync, tampered, consumerDone>>
 Delete(i) == /\ CanManip /\ i \in 1..Len(wire)
@@ -100,8 +105,11 @@ Recv ==
                      THEN delivered' = Append(delivered, f.pay) /\ reads' = reads - 1 /\ UNCHANGED <<queued, consumerDone>>
                      ELSE queued' = Append(queued, f.pay) /\ UNCHANGED <<delivered, reads, consumerDone>>
              /\ UNCHANGED <<rstate, desync, tampered>>
+        \* (the nonce is compared - and the expected nonce advanced - before SecretBox.decrypt is tried: a frame that carries the
+        \* right nonce and does not authenticate still moves next_receive_nonce; the connection is down either way)
         ELSE /\ rstate' = "hung up" /\ tampered' = TRUE
-             /\ UNCHANGED <<nextNonce, delivered, queued, reads, desync, consumerDone>>
+             /\ nextNonce' = IF f.nonce = nextNonce THEN nextNonce + 1 ELSE nextNonce
+             /\ UNCHANGED <<delivered, queued, reads, desync, consumerDone>>
   /\ last' = <<"Recv", 0, "-">>
   /\ UNCHANGED <<sent, sendNonce, failedReads, manip>>
 
